@@ -138,7 +138,11 @@ func replay(c *vf.Ctx) {
 		}
 		s := u.Shapes[r.ShapeIdx]
 		if r.ValIdx < 0 { // the whole shape (recorded when a child process died)
-			exercise(st, u, r.ShapeIdx, s, 40)
+			nv := 40
+			if r.Static {
+				nv = c.Pick(200, 2000)
+			}
+			exercise(st, u, r.ShapeIdx, s, nv)
 			break
 		}
 		vals := sergen.Values(s, valRng(r.USeed, r.ShapeIdx), r.ValIdx+1)
@@ -159,6 +163,8 @@ func child(c *vf.Ctx) {
 	switch c.Child {
 	case "serix":
 		serixChild(c)
+	case "serix-static":
+		serixStaticChild(c)
 	case "serix-isolate":
 		serixIsolateChild(c)
 	}
